@@ -36,6 +36,16 @@ func (e *Engine) Init(pkgPath string) (err error) {
 			panic(r)
 		}
 	}()
+	// table-only dependency packages whose functions are interpreted: their initialisers must
+	// have run whichever way the harness package imports them (a skipped strings.init would
+	// otherwise leave unicode/utf8's decoding tables zero)
+	for _, dep := range []string{"unicode/utf8"} {
+		if dp := e.prog.Pkgs[dep]; dp != nil {
+			if f := dp.Func("init"); f != nil {
+				e.call(f, nil, nil)
+			}
+		}
+	}
 	e.call(initFn, nil, nil)
 	// snapshot: forget the undo log, keep init-time host state that must persist
 	e.undo = e.undo[:0]
